@@ -39,12 +39,17 @@ the operation records of size `N` and `s`), so `distributed_c01_roots_honest` ha
 parameter (`XF.fin` at ℚ: `stored_preconditioner_honest_rat`).  Round 2: the `1 × 1` branch and the eigh root have their own
 forms of (1) (`stored_preconditioner_onebyone_form`, `…_eigh_form`), (2) has a form with the routine dispatched on the
 statistic size as in the code (`update_uses_honest_roots_dispatch`), and `tree_step_is_map_of_param_steps` lifts everything
-to a parameter tree.  LOBPCG, quantized and frequent-directions paths are not routed through the slot automaton.
+to a parameter tree.  Round 3: entry-level forms (`tearfree_blocked_update_is_per_block_update`, `ds_update_entry_is_block_entry`,
+the padding adapter `tearfree_padding_never_changes_real_entries`) and the quantized slot
+(`stored_quantized_is_initial_or_quantized_honest_root`).  NOT done: frequent-directions slots through `slotStepDep` (the
+warm-started automaton needs C09's `SvdSpec` along the reached states and DS's guarded `_fd_update_root` as the kernel —
+`sketchy_run_brackets_refresh_covariance` is the Tearfree analogue, without a gate); LOBPCG.
 -/
 import PrecondVerif.Lemmas.Compose
 import PrecondVerif.Lemmas.ComposePad
 import PrecondVerif.Lemmas.ComposeForms
 import PrecondVerif.Lemmas.ComposeTF
+import PrecondVerif.Lemmas.ComposeQuant
 
 set_option linter.unusedSectionVars false
 
@@ -262,6 +267,46 @@ theorem stored_preconditioner_eigh_form (kernel : (n : Nat) → Mat α n n → M
 
 end Forms
 
+/-! ### (1), quantized form: C03 `selectTriple` × C11 quantize / dequantize × C01 Newton -/
+
+section QuantizedForm
+open PrecondVerif.Quant PrecondVerif.DShampoo
+variable {α : Type} [Field α] [LinearOrder α] [IsStrictOrderedRing α] [HasFloor α] [LawfulFloor α] [Inhabited α]
+variable {γ δ m β : Type} [Add β] [Mul β] [Sub β] [OfNat β 0] [OfNat β 1]
+
+/-- **(1), quantized form.**  Slot whose stored value is C11's quantized triple `QV` (payload, diagonal, bucket sizes),
+root routine quantize ∘ Newton (`quantNewtonSlotRoot`, `Nq ≥ 1` buckets per column, statistic size `d ≠ 0`), C03's gate,
+C04's schedule.  The stored triple is the initial one, or for a refresh step `r < k` and the statistics `A` after its
+update there is a matrix `X` with: `X` is the Newton output on `A`, honest (`NewtonCert`: `e = rep err`, `retries ≥ 1`,
+`|X^p · A_d − I| ≤ err`), `e` not NaN and below the threshold; the stored triple IS `quantize X`; and dequantized it is
+within half a bucket of `X` in every column (`C11.roundtrip_half_bucket`). -/
+theorem stored_quantized_is_initial_or_quantized_honest_root (N : NewtonCfg α) (hN : NewtonOK N) (rep : α → XF)
+    (Nq : Nat) (hNq : 1 ≤ Nq) (ed : Bool) (d : Nat) (hd : d ≠ 0) (thr : XF) (hthr : thr.isNaN = false)
+    (statsUpd : Mx α → γ → Mx α) (junk : Mx α → QV α) (graftUpd : δ → γ → Nat → δ × β × β)
+    (shampooUpd : m → QV α → γ → Nat → m × β × β) (finish : β → β → Nat → β) (cfg : DSCfg)
+    (s0 : DSState (Mx α) (QV α) XF δ m) (is : List (DSInp γ Unit)) (k : Nat) (hk : k ≤ is.length) :
+    let K := gateKernels thr statsUpd (quantNewtonSlotRoot N rep Nq ed d) junk graftUpd shampooUpd finish
+    let S := stateAt (dsStep K cfg) s0 is
+    (S k).precond = s0.precond ∨
+      ∃ r e, r < k ∧ (s0.count + r) % cfg.interval (s0.count + r) = 0 ∧ e.isNaN = false ∧ e.lt thr = true ∧
+        QuantCert N rep Nq ed d (S (r + 1)).stats (S k).precond e := by
+  intro K S
+  rcases stored_certified thr hthr statsUpd (quantNewtonSlotRoot N rep Nq ed d) junk graftUpd shampooUpd finish
+    (QuantCert N rep Nq ed d) (fun _ => True)
+    (fun L prev f _ => quantNewtonSlotRoot_cert N hN rep Nq hNq ed d hd L prev f) cfg s0 is trivial
+    (fun _ _ _ => trivial) k hk with h | ⟨r, e, h1, h2, h3, h4, _, h6⟩
+  · exact Or.inl h
+  · exact Or.inr ⟨r, e, h1, h2, h3, h4, h6⟩
+
+/-- the select the automaton applies to the stored `QV` is, component by component, the three parallel selects of
+`_pmap_quantized_compute_preconditioners` (C03 `quantized_triple_consistent`): the stored triple is never a mixture -/
+theorem quantized_slot_select_is_select_triple (err thr : XF) (new old : QV α) :
+    selectTriple err thr (new.q, new.diag, new.bucket) (old.q, old.diag, old.bucket) =
+      ((select err thr new old).q, (select err thr new old).diag, (select err thr new old).bucket) :=
+  qv_select_is_triple err thr new old
+
+end QuantizedForm
+
 /-- (1) at ℚ, the scalar type the exact driver runs: errors are reported as `XF.fin`, the threshold is a rational `τ`;
 the accepted error is below `τ` as a rational number. -/
 theorem stored_preconditioner_honest_rat {n : Nat} {γ : Type} (N : NewtonCfg ℚ) (hN : NewtonOK N) (s : Nat)
@@ -428,6 +473,28 @@ theorem update_uses_honest_roots_dispatch (N : NewtonCfg α) (hN : NewtonOK N) (
   used_preconds_certified thr hthr (dispatchSlotRootMx N rep invroot dims) (DispatchCert N rep invroot dims)
     (fun _ L => 0 ≤ L 0 0) (fun i L prev f hL => dispatch_cert N hN rep invroot he hf hinv dims hd i L prev f hL)
     G w1 w2 (fun i L g hL => slotStatsUpd_diag_nonneg G w1 w2 hw1 hw2 i L g 0 hL) upd cfg s0 hist t ht i hi h0
+
+
+/-- **`ds_update_entry_is_block_entry`: the entry-level form of block locality, on the composed model.**  For every leaf
+geometry (merging, block size, preconditioner type), every list `P` of stored preconditioners — in particular
+`usedAt mk cfg (S t) g` of (2), whose entries are the identity or honest roots — and every in-bounds index `idx` of the
+merged shape: `preconditioned_grad` succeeds with `reshape(u, original_shape)` flattened, for the code shape (`Low`,
+rotate-and-`tensordot`) and the documented one (`Spec`) alike, and the entry `u[idx]` is the entry at `j` of the mode
+products of block `k`'s own gradient slice with block `k`'s own slot matrices (`slotMats P … (specSlots … k)`: slots
+`k·K + #preconditioned axes before a`), where `(k, j) = locateBlock idx` is the one block containing the entry and its
+index inside it (C06 `partition_blocks_tile`, `partition_contiguous`, `partition_merge_id`).  No other block's gradient
+or preconditioner enters. -/
+theorem ds_update_entry_is_block_entry (G : Geom) (P : List (Mx α)) (g : List α) (idx : List Nat)
+    (hi : inBounds G.tshape idx) :
+    ∃ u : Tensor α, lowPrecondGrad G P g = some ((u.reshape G.shape).flat) ∧
+      specPrecondGrad G P g = some ((u.reshape G.shape).flat) ∧ u.shape = G.tshape ∧
+      ∃ hk : (locateBlock G.tshape G.block idx).1 < (G.blocks g).length,
+        u.get idx =
+          (specBlock ((G.blocks g)[(locateBlock G.tshape G.block idx).1])
+            (slotMats P Mx.zero (specSlots G.ptype G.rank (locateBlock G.tshape G.block idx).1))).get
+            (locateBlock G.tshape G.block idx).2 := by
+  obtain ⟨u, h1, h2, h3⟩ := ds_precond_grad_entry G P g idx hi
+  exact ⟨u, by rw [(PrecondVerif.C02.preconditioned_grad_low_eq_spec G P g).1, h1], h1, h2, h3⟩
 
 /-- the hypotheses are satisfiable: a `[2, 3]` parameter, SGD graft, one block, two slots in sync -/
 example : (dsGraftStep (fun x : Rat => x) (fun n => (n : Rat)) ⟨.sgd, 1, 0, 0, 1, true, none, 0⟩ [1, 2, 3, 4, 5, 6] []).1.length
@@ -655,18 +722,12 @@ open PrecondVerif.Tearfree PrecondVerif.Shapes PrecondVerif.Compose
 
 variable {α : Type} [Zero α] [One α] [Add α] [Sub α] [Mul α] [LT α] [DecidableLT α] [BEq α] [Max α] {P : Type}
 
-/-- **`tearfree_blocked_update_is_per_block_update` (partial).**  One `shampoo._update` call on a (merged, padded) leaf of
-shape `ps` holding one stored state per block: every block `n` goes through `tfBlockStep` — statistics cond
-(`count % update_statistics_freq`), then preconditioner cond on the result, then apply — as a function of ITS OWN gradient
-slice `extractBlock … n` and ITS OWN stored state only; the new state is the list of the per-block new states and the
-emitted update is `deblockify ∘ assembleBlocks` of the per-block outputs.  So blocks do not influence each other, and a
-block's roots on a refresh step are those of its own statistics after this step's update (C04's Tearfree cadence, C15
-`shampoo_cadence`).
-PARTIAL: the statement stops at `deblockify (assembleBlocks …)`; "each real ENTRY of the update equals the entry of its
-block's output" additionally needs a pointwise index description of `deblockify ∘ assembleBlocks`, which C06 does not
-provide (`C06.deblockify_blockify_id` is the round trip `deblockify (blockify t) ≈ t` only), and the zero-padding half
-(`C15.zero_padding_invisible_apply`) is stated on Mathlib matrices, not on the block arrays `blockApply` works on. -/
-theorem tearfree_blocked_update_is_per_block_update_partial (eigh : EighFn α) (hp : ℕ → α → α) (cut decay : α)
+/-- **Block level.**  One `shampoo._update` call on a (merged, padded) leaf of shape `ps` holding one stored state per
+block: every block `n` goes through `tfBlockStep` — statistics cond (`count % update_statistics_freq`), then preconditioner
+cond on the result, then apply — as a function of ITS OWN gradient slice `extractBlock … n` and ITS OWN stored state only;
+the new state is the list of the per-block new states and the emitted update is `deblockify ∘ assembleBlocks` of the
+per-block outputs (C04's Tearfree cadence, C15 `shampoo_cadence`). -/
+theorem tearfree_blocked_update_is_per_block_update_blocks (eigh : EighFn α) (hp : ℕ → α → α) (cut decay : α)
     (bs sf pf : ℕ) (ps : List ℕ) (u : List α) (st : ShState α) (x : P)
     (hlen : st.blocks.length = (blocksMetadata bs ps).numBlocks) :
     let m := blocksMetadata bs ps
@@ -677,5 +738,56 @@ theorem tearfree_blocked_update_is_per_block_update_partial (eigh : EighFn α) (
     ((shampooTx (P := P) eigh hp cut decay bs sf pf ps).update u st x).1 =
       (deblockify (ofFlat Bt.shape (assembleBlocks (per.map Prod.snd) Bt.shape m.blockSizes m.blocksAxis)) m).flat :=
   tf_blocked_is_per_block eigh hp cut decay bs sf pf ps u st x hlen
+
+/-- **`tearfree_blocked_update_is_per_block_update` (entry level; C06 `deblockify_pointwise` + `blockify_shape`).**  For
+every leaf `_init` accepts (at most two large axes, each a multiple of the block size) and every in-bounds entry `idx`
+of the (merged, padded) leaf: with `blk = blockIndexOf idx` the block the entry lies in (`blk < num_blocks`) and
+`innerIndexOf idx` its index inside that block, the update entry at `idx` IS the entry at that inner index of
+`tfBlockStep` — cadenced statistics update, cadenced root refresh, apply — run on block `blk`'s own gradient slice and own
+stored state.  No other block's gradient or state enters. -/
+theorem tearfree_blocked_update_is_per_block_update (eigh : EighFn α) (hp : ℕ → α → α) (cut decay : α)
+    (bs sf pf : ℕ) (ps : List ℕ) (u : List α) (st : ShState α) (x : P) (hb : 0 < bs)
+    (hle : (blocksMetadata bs ps).largeAxes.length ≤ 2)
+    (hdiv : ∀ a ∈ (blocksMetadata bs ps).largeAxes, bs ∣ ps.getD a 0)
+    (hlen : st.blocks.length = (blocksMetadata bs ps).numBlocks) (idx : List Nat) (hi : inBounds ps idx) :
+    let m := blocksMetadata bs ps
+    let Bt := blockify (ofFlatL ps u) m
+    let blk := blockIndexOf m idx
+    blk < m.numBlocks ∧
+    (ofFlatL ps ((shampooTx (P := P) eigh hp cut decay bs sf pf ps).update u st x).1).get idx =
+      rd (tfBlockStep eigh (hp (shampooExponent ps)) cut decay m.blockSizes sf pf st.count
+            (extractBlock Bt.flat.toArray Bt.shape m.blockSizes m.blocksAxis blk)
+            (st.blocks.getD blk ⟨[], []⟩)).2
+        (ravel m.blockSizes (innerIndexOf m idx)) :=
+  tf_update_entry eigh hp cut decay bs sf pf ps u st x hb hle hdiv hlen idx hi
+
+/-- … and the block's "own gradient slice" is the contiguous sub-tensor of the leaf starting at the block's offsets
+(C06 `blockify_block_contiguous`): entry `j` of `extractBlock … n` is the leaf's entry at `tfBlockOffsets n + j`. -/
+theorem tearfree_block_slice_is_contiguous (bs : ℕ) (ps : List ℕ) (u : List α) (hb : 0 < bs)
+    (hle : (blocksMetadata bs ps).largeAxes.length ≤ 2)
+    (hdiv : ∀ a ∈ (blocksMetadata bs ps).largeAxes, bs ∣ ps.getD a 0) (n : Nat)
+    (hn : n < (blocksMetadata bs ps).numBlocks) (j : List Nat) (hj : inBounds (blocksMetadata bs ps).blockSizes j) :
+    let m := blocksMetadata bs ps
+    let Bt := blockify (ofFlatL ps u) m
+    rd (extractBlock Bt.flat.toArray Bt.shape m.blockSizes m.blocksAxis n) (ravel m.blockSizes j) =
+      (ofFlatL ps u).get (addOff (tfBlockOffsets m n) j) :=
+  tf_block_slice_get bs ps u hb hle hdiv n hn j hj
+
+/-- **Padding never changes real entries** (adapter of C15's `zero_padding_invisible` — stated on Mathlib matrices — to the
+block arrays `blockApply` / `applyAxis` work on).  One factor of `_precondition_blocks` along an axis of padded extent
+`n + k`, with the root `blockRoot` computes from the stored statistics array `C'`, when those statistics are
+`blockdiag(C, 0)` (the solver's output meets `EighSpec` for `padFn k C`; kept along every history by
+`C15.padded_statistics_stay_padded`): the output entry in a real row `i < n` is `Σ_{c<n} R[i][c] · x[o,c,r]` with `R` the
+root of the UNPADDED statistics — neither the padded entries of `x` nor the padding of the statistics enter — and the
+entries in padding rows are exactly `0`.  (Same two lemmas as `C15.zero_padding_invisible`: `rootOfEigh_unique`,
+`rootOfEigh_padEigh`; `Props/C15` itself is not imported to keep this file light.) -/
+theorem tearfree_padding_never_changes_real_entries {α : Type} [Field α] [LinearOrder α] [IsStrictOrderedRing α]
+    (eigh : EighFn α) (hp : α → α) (cut : α) (hcut : 0 ≤ cut) (v : AxView) (n k : Nat) (hv : v.d = n + k)
+    (C' x : Array α) (C : Matrix (Fin n) (Fin n) α) (e : EighOut α n) (hs : EighSpec C e) (hw : ∀ a, 0 ≤ e.w a)
+    (hs' : EighSpec (Matrix.of (padFn k C)) (eigh (n + k) (arrToMat (n + k) C')))
+    (o i r : Nat) (ho : o < v.outer) (hi : i < n + k) (hr : r < v.inner) :
+    rd (applyAxis v (blockRoot eigh hp cut (n + k) C') x) ((o * v.d + i) * v.inner + r) =
+      if h : i < n then ∑ c : Fin n, rootOfEigh hp cut e ⟨i, h⟩ c * rd x ((o * v.d + c.val) * v.inner + r) else 0 :=
+  applyAxis_padded_root eigh hp cut hcut v n k hv C' x C e hs hw hs' o i r ho hi hr
 
 end PrecondVerif.ComposeProps.C15
